@@ -20,6 +20,15 @@ def check_diff_extractor(repo, sub, findings, R=None):
     n_axes = len(tab.labels)
     info = dict(stores=[], table=tab)
     mom = [c2 for c2 in sub.children if c2.func.name.endswith("_compute_multipole_moment_integrals_intermediate")]
+    if not mom:
+        # the overlap table may be handed in by the caller (computed once, shared): the order-0 store says which table it is
+        for s in ex.stores:
+            rid = getattr(s.rhs, "table_ref", None)
+            if rid is not None and s.index and s.index[0].kind == "const" and s.index[0].value == 0:
+                owner = getattr(ex.shared["refs"][rid]["table"], "owner", None)
+                if owner is not None and owner.func.name.endswith("_compute_multipole_moment_integrals_intermediate") and hasattr(owner, "call_args"):
+                    mom = [owner]
+                    break
     if len(mom) != 1:
         raise AnalysisError("STENCIL", "the derivative table is not started from exactly one overlap table", f.where())
     mom = mom[0]
@@ -72,9 +81,7 @@ def check_diff_extractor(repo, sub, findings, R=None):
             findings.append(Finding("D0", None, f"the overlap table under the derivative table is built with `{names[pos]}` = {got}; the derivative acts on "
                                                 f"shell one (exponents alpha, centre A) against shell two", expected=str(want), found=str(got),
                                     construct=f"overlap-table argument {names[pos]}"))
-    if args[0].e != 0 or args[1].e != 0:
-        findings.append(Finding("D0", None, "the overlap table under the derivative table must be moment order 0 about any origin", found=f"({args[0].e}, {args[1].e})",
-                                construct="overlap-table order"))
+    # (the table may hold higher moment orders as well - the order-0 store above takes its slice [0], which does not depend on the origin)
     # padding: overlap a-size == table a-size >= (cut - 1) + max order + 1
     order_max = tab.sizes[0] - 1
     n = tab.sizes[2]
